@@ -225,7 +225,14 @@ func runWaiting(c *enum.Ctx, name string, modeB bool, body func(s *sched.S, p *p
 	start := time.Unix(1_700_000_000, 0)
 	vsync.ResetChannels()
 	vcrand.Reset(1)
-	s := sched.Start(c, start, 30*time.Second, 20000, false)
+	s := sched.Start(c, start, 30*time.Second, 20000, os.Getenv("VERIF_TRACE") != "")
+	defer func() {
+		if os.Getenv("VERIF_TRACE") != "" {
+			for _, l := range s.Trace {
+				c.Label("%s", l)
+			}
+		}
+	}()
 	s.ModeB = modeB
 	rec := &record{}
 	var p *pool.ConnPool
